@@ -127,6 +127,7 @@ def run(ctx):
 
     d1b(db, rep)
     d2(db, rep)
+    scalar_operand_checked(db, rep, "D1h-SCALAR-OPERAND-CHECKED")
 
     # ---- D3 ---------------------------------------------------------------
     n = loops.classify_and_judge(db, libfuncs, rep, rule="D3-R-LOOP")
@@ -134,6 +135,71 @@ def run(ctx):
     rep.extra["loops_classified"] = n
     rep.extra["equality_exit_loops"] = ne
     rep.floor("D3-R-LOOP", 800)
+
+
+def scalar_operand_checked(db, rep, rule):
+    """An opcode flagged ORC_STATIC_OPCODE_SCALAR takes its LAST source from a parameter or constant: source 1 of a two-source
+    opcode (shifts), source 0 of a one-source opcode (loadpX).  The back ends rely on it - their rules for these opcodes end in
+    ORC_ASSERT(0) / ORC_COMPILER_ERROR for anything else - and orc_compiler_check_sizes is what enforces it for programs that
+    reach a back end.  Its error branches are evaluated as expressions for the two shapes with a TEMP variable in the scalar
+    position: one of them must fire.  (Shared with C14: the parser accepts `loadpw t1, t2`; the compile must refuse it.)"""
+    from exprval import NotPure, evaluate
+    from loops import counted
+    f = db.func("orc_compiler_check_sizes", "orccompiler")
+    rep.saw(f)
+    SC = db.macro_int("ORC_STATIC_OPCODE_SCALAR")
+    TEMP = db.enum("ORC_VAR_TYPE_TEMP")
+    errs = []
+    for x in f.walk():
+        if x.k != "IfStmt" or len(x.c) < 2 or x.c[1] is None:
+            continue
+        if not any(y.k == "ReturnStmt" for y in x.c[1].walk()):
+            continue
+        if not any(y.k == "BinaryOperator" and y.op == "=" and (access_path(y.c[0]) or "").endswith("->result") for y in x.c[1].walk()):
+            continue
+        loopvars = set()
+        for a in x.ancestors():
+            if a.k == "ForStmt":
+                cl = counted(a)
+                if cl:
+                    loopvars.add(cl["var"])
+        errs.append((x, loopvars))
+    if len(errs) < 4:
+        raise AnalysisBroken("orc_compiler_check_sizes: only %d error branches found" % len(errs))
+    srcloop = None
+    for lp in [x for x in f.walk() if x.k == "ForStmt"]:
+        cl = counted(lp)
+        if cl and any(y.k == "MemberExpr" and y.name == "src_size" for y in lp.walk()) and not any(z.k == "ForStmt" and z is not lp for z in lp.walk()):
+            srcloop = cl["var"]
+    if srcloop is None:
+        raise AnalysisBroken("orc_compiler_check_sizes: loop over the sources not found")
+
+    def fires(env, jval):
+        for x, lv in errs:
+            e = dict(env)
+            if srcloop in lv:
+                if jval is None:
+                    continue
+                e[srcloop] = jval
+            try:
+                if evaluate(x.c[0], e):
+                    return x
+            except (NotPure, ValueError, ZeroDivisionError):
+                continue
+        return None
+    base = {"opcode->flags": SC, "insn->flags": 0, "multiplier": 1, "compiler->vars[].vartype": TEMP, "compiler->vars[].size": 2,
+            "opcode->src_size[]": 2, "opcode->dest_size[]": 2, "opcode->src_size[0]": 2}
+    two = dict(base, **{"opcode->src_size[1]": 2})
+    one = dict(base, **{"opcode->src_size[1]": 0})
+    # two sources: the check fires at j = 1;  one source: in the loop at j = 0, or after it
+    ok2 = fires(two, 1) is not None
+    ok1 = fires(one, 0) is not None or fires(one, None) is not None
+    for nm, ok, ex in (("two-source", ok2, "shlw d, s, t"), ("one-source", ok1, "loadpw t1, t2")):
+        rep.check(ok, rule, where(f), "scalar-operand:%s" % nm,
+                  "a %s SCALAR opcode whose scalar operand is a temporary is refused (ORC_COMPILE_RESULT_UNKNOWN_PARSE)" % nm,
+                  "orc_compiler_check_sizes lets a %s opcode flagged SCALAR through although its scalar operand is neither a parameter nor a constant "
+                  "(`%s`): the program reaches the back end, whose rule for it ends in ORC_ASSERT(0) - orc_program_compile aborts the process" % (nm, ex),
+                  line=f.line)
 
 
 def d1b(db, rep):
